@@ -137,8 +137,10 @@ def restyle(fmt, obj, seed):
         obj.checksums.checksums.clear()
         for path, (typ, val) in cks:
             import os.path
-            if os.path.normpath(path) == path:
-                obj.checksums.add(path, typ, val)         # the public method (stores a list, not a tuple)
+            if os.path.normpath(path) == path and val:
+                # the public method (stores a list, not a tuple); only for a non-empty value: a falsy `checksum_value` means "compute it
+                # from the file under root_dir", which is another operation
+                obj.checksums.add(path, typ, val)
             else:
                 obj.checksums.checksums[path] = (typ, val)
         refill_dict(obj.images.images)
@@ -198,7 +200,15 @@ def run(F, req):
                 obj = build(F, fmt, spec)
             if si < len(styles) and styles[si]:
                 del ISSUES[:]
-                obj = restyle(fmt, obj, styles[si])
+                try:
+                    obj = restyle(fmt, obj, styles[si])
+                except Exception as e:  # noqa
+                    # rebuilding the containers in another style raised: reported as what it is (never as a dump result), and the
+                    # object, possibly half rebuilt, is replaced by a freshly built one
+                    import traceback
+                    tb = traceback.extract_tb(e.__traceback__)
+                    ISSUES.append({"fmt": fmt, "op": "restyle", "err": type(e).__name__, "where": "%s:%s" % (os.path.basename(tb[-1].filename), tb[-1].name)})
+                    obj = build(F, fmt, spec)
                 if ISSUES:
                     r["issues"] = list(ISSUES)
             r["before"] = state_of(fmt, obj)
